@@ -123,6 +123,13 @@ def handleTable (j : Json) : Except String Json := do
   let keys : List String ← fromJson? (← j.getObjVal? "keys")
   return Json.mkObj [("order", toJson (Determinism.keysOf (Determinism.build (keys.map (fun k => (k, ()))))))]
 
+/-- {"op":"suggest","recipes":[[name,dist]..],"aliases":[[name,dist]..]} → the name `suggest_recipe` proposes (definitions in any order) -/
+def handleSuggest (j : Json) : Except String Json := do
+  let rs : List (String × Nat) ← fromJson? (← j.getObjVal? "recipes")
+  let as : List (String × Nat) ← fromJson? (← j.getObjVal? "aliases")
+  let dist (n : String) : Nat := ((rs ++ as).lookup n).getD 99
+  return Json.mkObj [("suggestion", toJson (Determinism.suggestRecipe dist rs as))]
+
 /-- {"op":"clean","p":S} → `clean(p)` and `Path::new(p).lexiclean()` as text -/
 def handleClean (j : Json) : Except String Json := do
   let p ← j.getObjValAs? String "p"
@@ -597,6 +604,7 @@ def handle (line : String) : Json :=
       | "channels" => handleChannels j
       | "define" => handleDefine j
       | "table" => handleTable j
+      | "suggest" => handleSuggest j
       | "clean" => handleClean j
       | "entries" => handleEntries j
       | "percent" => handlePercent j
